@@ -150,6 +150,10 @@ def run(ctx, rep):
                 if (t.get('callee') or '').endswith('IntoIterator::into_iter'):
                     if ('field', 'mirrors') in d.of_operand(t['args'][0]):
                         ok_bound = True
+            # ... or the range is handed to the loop directly (an adaptor turned back into a loop)
+            for nb in nexts:
+                if ('field', 'mirrors') in d.of_operand(W.blocks[nb]['term']['args'][0]):
+                    ok_bound = True
             if not ok_bound:
                 probs.append('the loop bound does not depend on self.mirrors')
             lseeks = [b for b in seeks if b in body]
